@@ -116,7 +116,8 @@ def case(arg):
         # the histories C13 quantifies over end with no pending points
         for p in list(r.outstanding):
             r.tell(p)
-        r.remove()
+        if X.pending_keys(kn, l) or rng.random() < 0.3:
+            r.remove()   # (not always: a discard rebuilds derived state, e.g. LearnerND's simplex queue)
         if X.pending_keys(kn, l):
             for p in list(l.pending_points):
                 r.tell(p)
